@@ -8,6 +8,16 @@ import types
 _counter = [0]
 
 
+def make_checker(settings=None):
+    """a Checker configured as check_code configures its own (to be shared between several check_code calls)"""
+    from pyanalyze.error_code import ErrorCode, DISABLED_IN_TESTS
+    from pyanalyze.name_check_visitor import NameCheckVisitor
+    default_settings = {c: c not in DISABLED_IN_TESTS for c in ErrorCode}
+    if settings:
+        default_settings.update(settings)
+    return NameCheckVisitor.prepare_constructor_kwargs({"settings": default_settings})["checker"]
+
+
 def check_code(code: str, settings=None, apply_changes=False, **kwargs):
     """-> list of failures (dicts with lineno, code, description) for the module source `code`"""
     import ast
